@@ -19,6 +19,14 @@ type GenEmb struct {
 
 type GenLevel uint8
 
+// user-defined named versions of the supported leaf kinds (second alphabet)
+type GenName string
+type GenFlag bool
+type GenCount int64
+type GenRatio float32
+type GenList []string
+type GenSetT map[string]struct{}
+
 // leaf kinds
 const (
 	GLInt8 = iota
@@ -28,6 +36,16 @@ const (
 	GLDuration
 	GLNamedUint8
 	GLPtrInt16
+	GLNamedString
+	GLNamedBool
+	GLNamedInt64
+	GLNamedFloat32
+	GLNamedList
+	GLNamedSet
+	GLNamedElems   // []GenName
+	GLMapNamedVals // map[string]GenLevel
+	GLPtrNamedString
+	GLMapNamedKeys // map[GenName]GenName
 )
 
 type GenLeaf struct {
@@ -89,15 +107,43 @@ func genShapes() []genShape {
 	}
 }
 
+// genNamedShapes: every leaf is a user-defined named version of a supported kind (or a
+// collection of such).
+func genNamedShapes() []genShape {
+	return []genShape{
+		{name: "Name", t: reflect.TypeOf(GenName("")), leaves: []GenLeaf{{Kind: GLNamedString}}},
+		{name: "Flag", t: reflect.TypeOf(GenFlag(false)), leaves: []GenLeaf{{Kind: GLNamedBool}}},
+		{name: "Count", t: reflect.TypeOf(GenCount(0)), leaves: []GenLeaf{{Kind: GLNamedInt64}}},
+		{name: "Ratio", t: reflect.TypeOf(GenRatio(0)), leaves: []GenLeaf{{Kind: GLNamedFloat32}}},
+		{name: "List", t: reflect.TypeOf(GenList(nil)), leaves: []GenLeaf{{Kind: GLNamedList}}},
+		{name: "SetT", t: reflect.TypeOf(GenSetT(nil)), leaves: []GenLeaf{{Kind: GLNamedSet}}},
+		{name: "[]Name", t: reflect.TypeOf([]GenName(nil)), leaves: []GenLeaf{{Kind: GLNamedElems}}},
+		{name: "map[string]Level", t: reflect.TypeOf(map[string]GenLevel(nil)), leaves: []GenLeaf{{Kind: GLMapNamedVals}}},
+		{name: "*Name", t: reflect.TypeOf((*GenName)(nil)), leaves: []GenLeaf{{Kind: GLPtrNamedString}}},
+		{name: "map[Name]Name", t: reflect.TypeOf(map[GenName]GenName(nil)), leaves: []GenLeaf{{Kind: GLMapNamedKeys}}},
+		{name: "struct{Name;Level}", t: reflect.TypeOf(struct {
+			X GenName
+			Y GenLevel
+		}{}), leaves: []GenLeaf{{Path: []string{"X"}, Kind: GLNamedString}, {Path: []string{"Y"}, Kind: GLNamedUint8}}},
+	}
+}
+
 // GenNumShapes is the size of the field-shape alphabet.
 func GenNumShapes() int { return len(genShapes()) }
+
+// GenNumNamedShapes is the size of the named-type alphabet.
+func GenNumNamedShapes() int { return len(genNamedShapes()) }
+
+// GenStructNamed is GenStruct over the named-type alphabet.
+func GenStructNamed(shapes []int) (GenType, bool) { return genStruct(genNamedShapes(), shapes) }
 
 var genFieldNames = []string{"Fa", "Fb", "Fc", "Fd"}
 
 // GenStruct builds the struct type with one field per entry of shapes (indices into the
 // alphabet); at most one embedded field is allowed (ok=false otherwise).
-func GenStruct(shapes []int) (GenType, bool) {
-	all := genShapes()
+func GenStruct(shapes []int) (GenType, bool) { return genStruct(genShapes(), shapes) }
+
+func genStruct(all []genShape, shapes []int) (GenType, bool) {
 	var fields []reflect.StructField
 	var gt GenType
 	nemb := 0
@@ -198,6 +244,24 @@ func GenLeafIs(v reflect.Value, kind int, n int8) bool {
 		return v.Uint() == 7
 	case GLPtrInt16:
 		return v.Int() == 12
+	case GLNamedString, GLPtrNamedString:
+		return v.String() == "s"
+	case GLNamedBool:
+		return v.Bool()
+	case GLNamedInt64:
+		return v.Int() == -9
+	case GLNamedFloat32:
+		return v.Float() == 1.5
+	case GLNamedList, GLNamedElems:
+		return v.Len() == 2 && v.Index(0).String() == "a" && v.Index(1).String() == "b"
+	case GLNamedSet:
+		return v.Len() == 1 && v.MapIndex(reflect.ValueOf("a")).IsValid()
+	case GLMapNamedVals:
+		e := v.MapIndex(reflect.ValueOf("k"))
+		return v.Len() == 1 && e.IsValid() && e.Uint() == 7
+	case GLMapNamedKeys:
+		e := v.MapIndex(reflect.ValueOf(GenName("k")))
+		return v.Len() == 1 && e.IsValid() && e.String() == "v"
 	}
 	return false
 }
@@ -220,6 +284,22 @@ func GenText(kind int, n string) string {
 		return "7"
 	case GLPtrInt16:
 		return "12"
+	case GLNamedString, GLPtrNamedString:
+		return "s"
+	case GLNamedBool:
+		return "true"
+	case GLNamedInt64:
+		return "-9"
+	case GLNamedFloat32:
+		return "1.5"
+	case GLNamedList, GLNamedElems:
+		return "a,b"
+	case GLNamedSet:
+		return "a"
+	case GLMapNamedVals:
+		return "k:7"
+	case GLMapNamedKeys:
+		return "k:v"
 	}
 	return ""
 }
